@@ -13,7 +13,9 @@ Interface (kept small; `Model/Rpc` of C01 imports this file):
                                              `proxyLock/Unlock/ForceUnlock/IsLocked/Call` mirror `QMI_RpcProxy`
 
 Python exceptions are values: an exception escaping a handler kills the worker thread
-(`_RpcThread.run` has no handler), after which no request is ever answered (`Sys.dead`).
+(`_RpcThread.run` has no handler), after which no request is ever answered (`Sys.dead`).  On the current tree no
+request a proxy can issue does that (`Props/C04.lean: gen_eq_spec`, `lock_requests_total`); the state component is
+kept so that a regression shows up as a false theorem, not as an unmodellable behaviour.
 
 Core Lean only (the driver exe links this file).
 -/
@@ -25,8 +27,10 @@ structure Token where
   tok : String
   deriving DecidableEq, Repr
 
-/-- `QMI_Context.make_unique_token(prefix="$lock_")` for counter value `n` -/
-def mkToken (ctxName : String) (n : Nat) : Token := ⟨ctxName, "$lock_" ++ toString n⟩
+/-- `QMI_Context.make_unique_token(prefix="$lock_")` of a context instance with name `ctxName` and instance identifier
+`nonce` (`_instance_id`, drawn from `os.urandom` when the context is created), for counter value `n`:
+`QMI_LockTokenDescriptor(self.name, prefix + self._instance_id + "_" + str(nr))` -/
+def mkToken (ctxName nonce : String) (n : Nat) : Token := ⟨ctxName, "$lock_" ++ nonce ++ "_" ++ toString n⟩
 
 /-- `QMI_LockTokenDescriptor(self._context.name, ACCESS_DENIED_TOKEN_PLACEHOLDER)` -/
 def deniedTok (srv : String) : Token := ⟨srv, Gen.LockFsm.deniedPlaceholder⟩
@@ -94,6 +98,7 @@ def dispatchGuard (owner req : Option Token) : Bool :=
 /-- a context *instance*; two instances may carry the same name -/
 structure Ctx where
   name : String
+  nonce : String         -- `_instance_id`
   counter : Nat          -- `_unique_counters["$lock_"]`
   deriving DecidableEq, Repr
 
@@ -121,11 +126,11 @@ structure Sys where
   gens : List GenRec           -- ghost: every automatically generated token, newest first
   deriving DecidableEq, Repr
 
-def init (srv : String) : Sys :=
-  { srv, ctxs := [⟨srv, 0⟩], proxies := [], owner := none, dead := none, count := 0, gens := [] }
+def init (srv nonce : String) : Sys :=
+  { srv, ctxs := [⟨srv, nonce, 0⟩], proxies := [], owner := none, dead := none, count := 0, gens := [] }
 
 inductive Op
-  | newCtx (name : String)
+  | newCtx (name : String) (nonce : String)
   | newProxy (ctx : Nat)
   | lock (p : Nat) (custom : Option String)
   | unlock (p : Nat) (custom : Option String)
@@ -142,6 +147,7 @@ inductive Out
   | ran (count : Nat)      -- the method body ran; its return value (the counter)
   | locked                 -- `QMI_RuntimeException("The object is locked by another proxy")`, nothing ran
   | hang                   -- no reply: the worker is dead, the caller waits for ever
+  | usage                  -- `QMI_UsageException` raised by the proxy before anything is sent
   | bad
   deriving DecidableEq, Repr
 
@@ -171,13 +177,19 @@ def setProxyTok (s : Sys) (p : Nat) (px : Proxy) (t : Option Token) : Sys :=
 whose record is `c`): the counter is incremented first, the new value goes into the token -/
 def freshToken (s : Sys) (p : Nat) (px : Proxy) (c : Ctx) : Sys × Token :=
   ({ s with ctxs := s.ctxs.set px.ctx { c with counter := c.counter + 1 },
-            gens := ⟨px.ctx, c.counter + 1, mkToken c.name (c.counter + 1), p⟩ :: s.gens },
-   mkToken c.name (c.counter + 1))
+            gens := ⟨px.ctx, c.counter + 1, mkToken c.name c.nonce (c.counter + 1), p⟩ :: s.gens },
+   mkToken c.name c.nonce (c.counter + 1))
 
 /-- `my_lock_token` of `QMI_RpcProxy.lock`: the state in which the ACQUIRE request is sent, and the token it carries -/
 def lockPre (s : Sys) (p : Nat) (px : Proxy) (c : Ctx) : Option String → Sys × Token
   | some t => (s, ⟨c.name, t⟩)          -- `QMI_LockTokenDescriptor(self._context.name, lock_token)`
   | none => freshToken s p px c
+
+/-- `lock_token in (ACCESS_DENIED_TOKEN_PLACEHOLDER, OBJECT_LOCKED_TOKEN_PLACEHOLDER)`: the strings used in lock replies
+may not be used as custom tokens -/
+def reservedCustom : Option String → Bool
+  | some t => t == Gen.LockFsm.deniedPlaceholder || t == Gen.LockFsm.lockedPlaceholder
+  | none => false
 
 /-- `QMI_RpcProxy.lock(timeout=0, lock_token=custom)` -/
 def proxyLock (s : Sys) (p : Nat) (custom : Option String) : Sys × Out :=
@@ -187,6 +199,7 @@ def proxyLock (s : Sys) (p : Nat) (custom : Option String) : Sys × Out :=
     match s.ctxs[px.ctx]? with
     | none => (s, .bad)
     | some c =>
+      if reservedCustom custom then (s, .usage) else      -- `raise QMI_UsageException(... is a reserved lock token)`
       let sm : Sys × Token := lockPre s p px c custom
       match lockRequest sm.1 .acquire (some sm.2) with
       | (s2, none) => (s2, .hang)
@@ -237,7 +250,7 @@ def proxyCall (s : Sys) (p : Nat) (nb : Bool) : Sys × Out :=
   | some px => callRequest s (if nb then px.nbTok else px.tok)
 
 def step (s : Sys) : Op → Sys × Out
-  | .newCtx name => ({ s with ctxs := s.ctxs ++ [⟨name, 0⟩] }, .idx s.ctxs.length)
+  | .newCtx name nonce => ({ s with ctxs := s.ctxs ++ [⟨name, nonce, 0⟩] }, .idx s.ctxs.length)
   | .newProxy c =>
     if c < s.ctxs.length then ({ s with proxies := s.proxies ++ [⟨c, none, none⟩] }, .idx s.proxies.length)
     else (s, .bad)
